@@ -343,6 +343,80 @@ fn revocation_on_disclosed_claim<S: ShortGroupSignatureScheme + 'static>(em: &mu
     }
 }
 
+/// an accumulator proof (revocation or membership) made by hand for *another* value the holder has a witness
+/// for, with its own blinding, next to the real signature proof of a credential whose claim stays hidden: the
+/// only link is the verifier's comparison of `s_y` with the signature proof's response
+fn unlinked_accumulator_proof<S: ShortGroupSignatureScheme + 'static>(em: &mut Emitter, rng: &mut Rng, suite: &str) {
+    use credx::knox::accumulator::vb20::{Element, MembershipProofCommitting, ProofParams};
+    use credx::knox::short_group_sig_core::{HiddenMessage, ProofMessage};
+    use credx::prelude::{MembershipClaim, MembershipCredential, MembershipRegistry, MembershipSigningKey, MembershipVerificationKey};
+    for k in 0..em.n(2, 8) {
+        for kind in ["revocation", "membership"] {
+            let n_claims = 4;
+            let schema = cred_schema(n_claims, &[]);
+            let (public, mut issuer) = credx::issuer::Issuer::<S>::new(&schema);
+            let a = issuer.sign_credential(&claim_vector(rng, n_claims, &format!("ul-a-{}", k), "Mallory", 30)).unwrap();
+            let _b = issuer.sign_credential(&claim_vector(rng, n_claims, &format!("ul-b-{}", k), "Bob", 31)).unwrap();
+            issuer.revoke_credentials(&[RevocationClaim::from(format!("ul-a-{}", k).as_str())]).unwrap();
+            let mut ip = public.clone();
+            ip.revocation_registry = issuer.revocation_registry.value;
+            let nonce = rng.bytes(16);
+            let sig = SignatureStatement { disclosed: Default::default(), id: "sig".to_string(), issuer: ip.clone() };
+            // the statement, the value the hand-made proof speaks about, and a witness for it
+            let (pred, other_value, witness, vk): (Statements<S>, Scalar, _, _) = if kind == "revocation" {
+                let wb = issuer.update_revocation_handle(RevocationClaim::from(format!("ul-b-{}", k).as_str())).unwrap();
+                let st = RevocationStatement { id: "acc".to_string(), reference_id: "sig".to_string(), accumulator: ip.revocation_registry, verification_key: ip.revocation_verifying_key, claim: 0 };
+                (st.into(), RevocationClaim::from(format!("ul-b-{}", k).as_str()).to_scalar(), wb, ip.revocation_verifying_key)
+            } else {
+                let sk = MembershipSigningKey::new(Some(&rng.bytes(16)));
+                let vk = MembershipVerificationKey::from(&sk);
+                let registry = MembershipRegistry::random(rng.chacha());
+                // the set contains "Bob", not the signed "Mallory"
+                let member = MembershipClaim::from(&ClaimData::from(HashedClaim::from("Bob"))).0;
+                let mc = MembershipCredential::new(member, registry, &sk);
+                let st = MembershipStatement { id: "acc".to_string(), reference_id: "sig".to_string(), accumulator: registry, verification_key: vk, claim: 1 };
+                (st.into(), member.0, mc, vk)
+            };
+            let prover_schema = PresentationSchema::new_with_id(&[sig.clone().into()], "ul");
+            let verifier_schema = PresentationSchema::new_with_id(&[sig.into(), pred], "ul");
+            let mut creds: IndexMap<String, credx::presentation::PresentationCredential<S>> = IndexMap::new();
+            creds.insert("sig".to_string(), a.credential.clone().into());
+            let params = ProofParams::new(vk, Some(&nonce));
+            let committing = MembershipProofCommitting::new(ProofMessage::Hidden(HiddenMessage::ProofSpecificBlinding(other_value)), witness, params, vk);
+            merlin::vlog::take();
+            merlin::vlog::enable(true);
+            let mut t = merlin::Transcript::new(b"scratch");
+            params.add_to_transcript(&mut t);
+            committing.get_bytes_for_challenge(&mut t);
+            merlin::vlog::enable(false);
+            let extra: Vec<(Vec<u8>, Vec<u8>)> = merlin::vlog::take().into_iter().filter(|e| e.kind == 0 && e.label != b"dom-sep").map(|e| (e.label, e.data)).collect();
+            em.oracle_case(&format!("{} unlinked-{}-proof {}", suite, kind, k));
+            let p = match steered_create_ext(&creds, &prover_schema, &verifier_schema, &nonce, None, extra) {
+                Out::Ok(p) => p,
+                _ => {
+                    em.count("unlinked:steered-create-failed");
+                    continue;
+                }
+            };
+            let proof = committing.gen_proof(Element(p.challenge));
+            let mut v = serde_json::to_value(&p).unwrap();
+            let variant = if kind == "revocation" { "Revocation" } else { "Membership" };
+            v["proofs"]["acc"] = json!({variant: {"id": "acc", "proof": serde_json::to_value(&proof).unwrap()}});
+            if let Out::Ok(q) = pres_from_value::<S>(&v) {
+                let (res, ch, _) = verify_logged(&q, &verifier_schema, &nonce);
+                em.count(&format!("unlinked:{}:{}:{}", kind, res.class(), if ch == Some(q.challenge) { "challenge-matches" } else if ch.is_some() { "challenge-differs" } else { "stopped-before-challenge" }));
+                if res.is_ok() {
+                    em.violation(
+                        &format!("c05:unlinked-{}-proof-accepted", kind),
+                        format!("{}: a {} statement is accepted with an accumulator proof about another value than the signed claim (own blinding: s_y differs from the signature proof's response)", suite, kind),
+                        json!({"suite": suite, "presentation": v, "schema": serde_json::to_value(&verifier_schema).unwrap_or_default(), "nonce": hexs(&nonce)}),
+                    );
+                }
+            }
+        }
+    }
+}
+
 pub fn gen_c05(em: &mut Emitter, rng: &mut Rng) {
     em.rule = "deviating holders owning valid credentials, per statement kind (commitment, range via commitment, verifiable encryption, encrypt-and-decrypt, \
                revocation, membership): the real prover runs the predicate sub-protocol on another hidden claim of the same credential / on the other \
@@ -356,6 +430,12 @@ pub fn gen_c05(em: &mut Emitter, rng: &mut Rng) {
     }
     if em.mine(base + 1) {
         revocation_on_disclosed_claim::<Ps>(em, &mut rng.sub(8002), "ps");
+    }
+    if em.mine(base + 2) {
+        unlinked_accumulator_proof::<Bbs>(em, &mut rng.sub(8003), "bbs");
+    }
+    if em.mine(base + 3) {
+        unlinked_accumulator_proof::<Ps>(em, &mut rng.sub(8004), "ps");
     }
 }
 
